@@ -275,7 +275,10 @@ def _run_shard(args):
     prop, tier, seed, name, kwargs, budget = args
     if kwargs.get("_pyopt"):
         return _run_shard_pyopt(args)
-    _start_guard()
+    if prop != "C20":
+        # (C20 observes the reader-writer lock in processes whose thread population is part of the scenario - "the only live thread takes
+        # the lock, then starts another": an extra daemon thread would hide that; its shards allocate nothing to speak of)
+        _start_guard()
     # the interpreter's default recursion limit is left alone: it is part of what a user of the library gets
     ctx = Ctx(prop, tier, seed, name)
     if budget:
